@@ -20,7 +20,7 @@ TECHNIQUE = 'differential monitor source vs. defragmented copy through the real 
 RULE = ('sources from vlib.model.gen_file / build_file with scale graphs; non-trivial = source where some channel has data in >=2 segments, or '
         'contains an empty/untyped channel; distinct = per-segment signatures')
 ASSUMPTIONS = ['group and channel order of the copy is compared too (defragment writes them in source order)']
-REQUIRED = ['huge_sources', 'copy_compared_with_model', 'defragment_calls', 'channels_compared', 'props_compared', 'scaled_compared', 'dest:path', 'dest:stream', 'index:on', 'empty_or_untyped_channels',
+REQUIRED = ['copy_props_compared_with_model', 'huge_sources', 'copy_compared_with_model', 'defragment_calls', 'channels_compared', 'props_compared', 'scaled_compared', 'dest:path', 'dest:stream', 'index:on', 'empty_or_untyped_channels',
             'copies_strict_parsed']
 N = {'quick': 2400, 'thorough': 600000}
 
@@ -159,6 +159,22 @@ def run_case(case, ctx):
     except Exception as ex:
         ctx.violation('read-of-copy-raises/%s' % util.exc_key(ex), {'exc': util.exc_detail(ex), 'segments': desc})
         return
+    # ---- properties of the copy against the model of the source (the source and the copy are read by the same reader,
+    #      so a reader-side misreading of the source would otherwise be invisible)
+    def props_vs_model(path, observed):
+        want = exp.props.get(path, {})
+        ctx.count('copy_props_compared_with_model', len(want))
+        if set(observed.keys()) != set(want.keys()):
+            ctx.violation('copy-properties-differ-from-model/names', {'path': path, 'copy': sorted(observed.keys()), 'model': sorted(want.keys()), 'segments': desc})
+            return
+        for name, (pt, val) in want.items():
+            if not C.prop_matches(pt, val, observed[name]):
+                ctx.violation('copy-properties-differ-from-model/value/%s' % pt, {'path': path, 'name': name, 'copy': repr(observed[name])[:80], 'model': repr(val)[:80], 'segments': desc})
+    props_vs_model('/', b.properties)
+    for gb_ in b.groups():
+        props_vs_model(gb_.path, gb_.properties)
+        for cb_ in gb_.channels():
+            props_vs_model(cb_.path, cb_.properties)
     if [g.name for g in a.groups()] != [g.name for g in b.groups()]:
         kind = 'set' if set(g.name for g in a.groups()) != set(g.name for g in b.groups()) else 'order'
         ctx.violation('groups-differ/%s' % kind, {'src': [g.name for g in a.groups()], 'dst': [g.name for g in b.groups()], 'segments': desc})
